@@ -19,4 +19,5 @@ def run(ctx, rep):
     builtins.rule_template_single_pass(ctx, rep, "C20-R7")
     regexrules.rule_lastindex_conditions_agree(ctx, rep, "C20-R8")
     regexrules.rule_driver_not_bypassed(ctx, rep, "C20-R11")
+    regexrules.rule_step_over_relative_to_match(ctx, rep, "C20-R12")
     pairing.rule_borrowed_slot_restored(ctx, rep, "C20-R10", lambda f: f.module.name in ("vm", "context", "values"), "the runtime")
